@@ -67,15 +67,6 @@ def doRun (st : McSt) (ws : List String) (fromStates : Bool) : McSt × List Stri
       let cbRef := applyCbs cfgRef h st.cbs
       let showRes (r : Res Sys) : String := match r with
         | .ok => "ok" | .err msg _ => s!"err:{if msg.startsWith "nothing left" then "deadend" else msg}" | .panic _ => "panic"
-      let (vres, vset, vcol) : String × List String × List Sys :=
-        if fromStates then
-          match runFromStates cfgRef h preds (fun _ => 0) strat fuelDefault sys cbRef mode' (sortedStartsRef.map (·.getState)) with
-          | none => ("fuel", [], [])
-          | some (r, tot, _) => (showRes r, sortStrs (tot.evald.map projSys), tot.collected)
-        else
-          match runImpl cfgRef h preds (fun _ => 0) strat fuelDefault sys cbRef acc0 with
-          | none => ("fuel", [], [])
-          | some (r, acc', _) => (showRes r, sortStrs (acc'.evald.map projSys), acc'.collected)
       -- (b) the independent enumeration of the reference semantics (for a staged run: from every start state, union)
       let topo := sys.nodes.map fun nd => (nd.1, nd.2.procs.map (·.1))
       let invR := condR! (kv ws "inv"); let goalR := condR! (kv ws "goal"); let pruneR := condR! (kv ws "prune")
@@ -87,9 +78,21 @@ def doRun (st : McSt) (ws : List String) (fromStates : Bool) : McSt × List Stri
         match r0 with
         | none => ("cb-impossible", acc.2)
         | some (r, mode) =>
-          let out := refEnum h mode topo invR goalR pruneR 20000 r c.depth { acc.2 with count := 0 }
+          let noDepth := !(((kv ws "inv") ++ (kv ws "goal") ++ (kv ws "prune")).splitOn "dgt").length > 1
+          let out := refEnum h mode topo invR goalR pruneR 6000 r c.depth { acc.2 with count := 0, visited := {} } noDepth
           (if out.capped then "capped" else if out.failed then "fail" else "ok", out)) ("ok", ({} : EnumOut))
         |> fun (x : String × EnumOut) => (x.1, x.2.seen)
+      -- the reference variant is run only when the enumeration stayed below its cap (its exploration has the same size and no cap)
+      let (vres, vset, vcol) : String × List String × List Sys :=
+        if rres == "capped" then ("capped", [], []) else
+        if fromStates then
+          match runFromStates cfgRef h preds (fun _ => 0) strat fuelDefault sys cbRef mode' (sortedStartsRef.map (·.getState)) with
+          | none => ("fuel", [], [])
+          | some (r, tot, _) => (showRes r, sortStrs (tot.evald.map projSys), tot.collected)
+        else
+          match runImpl cfgRef h preds (fun _ => 0) strat fuelDefault sys cbRef acc0 with
+          | none => ("fuel", [], [])
+          | some (r, acc', _) => (showRes r, sortStrs (acc'.evald.map projSys), acc'.collected)
       ([s!"vres={vres} rres={rres}"] ++ vset.map ("V " ++ ·) ++ (if rres == "ok" then rset.map ("R " ++ ·) else []),
        if vres == "ok" then vcol else [])
   let refLines := refOut.1
